@@ -116,7 +116,7 @@ def mc_programs(alphabet: str, mode: str, maxnodes: int, workers: int = 4, timeo
         progs.append({"id": pid, "mode": row["mode"], "devs": [], "dyn": False, "pyctx": False, "ctx": libd["ctx"], "comps": libd["comps"],
                       "page": row["page"]})
         exp[pid] = {"id": pid, "out": row["out"], "err": row["err"], "errs": row["errs"], "zone": row["zone"],
-                    "insts": row["insts"], "elems": row["elems"], "marks": row["marks"]}
+                    "insts": row["insts"], "elems": row["elems"], "marks": row["marks"], "deps": row["deps"]}
     return progs, exp, r
 
 
